@@ -270,7 +270,13 @@ def _clients(ctx: Ctx, item=None):
              lambda: {"include_pgns": ["gnssPositionData", "temperature", 60928], "include_manufacturer_code": ["Maretron", "Garmin"], "build_network_map": True})]
     co.run(ctx, "C12", sets, msgs, reconnects=((), (9,)))
 
+def _dual(ctx: Ctx, item):
+    from .. import clientopts as co
+    co.dual_pass(ctx, "C12", item[0])
+
+
 def run(ctx: Ctx):
+    pmap(ctx, _dual, [(k,) for k in aio.CLIENT_KINDS])
     pmap(ctx, _clients, [None])
     pmap(ctx, _serial_scenarios, [(0,)])
     pmap(ctx, _long_session, [(k, 3000 if ctx.quick else 40000) for k in aio.CLIENT_KINDS])
@@ -279,6 +285,9 @@ def run(ctx: Ctx):
 
 
 def replay(ctx: Ctx, case):
+    if case.get("dual"):
+        from .. import clientopts as co
+        return co.dual_replay("C12", "C12", case)
     if case.get("clientopts"):
         from .. import clientopts as co
         return co.replay("C12", _clients, case)
